@@ -609,6 +609,7 @@ def body_cube(case, ctx):
         h_origin, h_axes, h_atoms = _angstrom_copy(fn, fn2, natom)
         with contextlib.redirect_stdout(io.StringIO()):
             g3, cd3 = UniformGrid.from_cube(fn2, return_data=True, **kw)
+            g3b = UniformGrid.from_cube(fn2, **kw)  # grid only: the unit conversion must not depend on the flag
     what = f"cube round trip shape={shape}"
     # --- bohr file: printed precision ------------------------------------------------------------
     if not ctx.check(tuple(int(m) for m in g2.shape) == tuple(shape) and g2.points.shape == g.points.shape, "cube-shape", f"{what}: read back shape {tuple(g2.shape)}"):
@@ -637,6 +638,8 @@ def body_cube(case, ctx):
     scale = np.abs(h_origin)[None, :] + cc @ np.abs(h_axes)
     ctx.close(g3.points, hdr_pts, rel * scale + 1e-11 * nsteps, "cube-angstrom-grid", f"{what}: angstrom file (negative first count) vs the bohr header")
     ctx.close(cd3["atcoords"], h_atoms, rel * np.abs(h_atoms) + 1e-11, "cube-angstrom-atoms", what)
+    if ctx.check(g3b.points.shape == g3.points.shape, "cube-angstrom-return-data-flag-changes-grid", f"{what}: shape {g3b.points.shape}"):
+        ctx.equal(g3b.points, g3.points, "cube-angstrom-return-data-flag-changes-grid", what)
     ctx.equal(np.asarray(cd3["data"]), rd, "cube-angstrom-data", what)
     ctx.equal(np.asarray(cd3["atnums"]), atnums, "cube-angstrom-atnums", what)
     ctx.close(cd3["atcorenums"], cd["atcorenums"], 0.0, "cube-angstrom-atcorenums", what)
